@@ -90,8 +90,31 @@ func statusB(code int, reason, body string) behaviour {
 	}}
 }
 
+var (
+	big        = strings.Repeat("0123456789abcdef", 640*1024) // 10 MiB
+	hugeHeader = "HTTP/1.1 200 OK\r\nX-Tok: " + strings.Repeat("h", 12<<20) + "\r\nContent-Length: 2\r\n\r\nok"
+	manyOnce   sync.Once
+	manyHdrs   map[string]string
+)
+
+func manyHeaders(v string) string {
+	manyOnce.Do(func() {
+		manyHdrs = map[string]string{}
+		for _, vv := range []string{"plain", "header", "jsonpath", "xpath", "assert", "all", ""} {
+			hs := []string{"Content-Length: " + strconv.Itoa(len(goodBody(vv))), "X-Tok: abcdef"}
+			for i := 0; i < 5000; i++ {
+				hs = append(hs, fmt.Sprintf("X-H-%d: v%d", i, i))
+			}
+			manyHdrs[vv] = resp("200 OK", hs, goodBody(vv))
+		}
+	})
+	if s, ok := manyHdrs[v]; ok {
+		return s
+	}
+	return manyHdrs[""]
+}
+
 func behaviours() []behaviour {
-	big := strings.Repeat("0123456789abcdef", 640*1024) // 10 MiB
 	bs := []behaviour{
 		{Name: "good", Status: 200, Exp: expStatus, act: func(c net.Conn, v string) bool { w(c, full("200 OK", goodBody(v))); return true }},
 		statusB(200, "OK", ""), statusB(201, "Created", "x"), statusB(204, "No Content", ""), statusB(301, "Moved", "moved"),
@@ -187,18 +210,14 @@ func behaviours() []behaviour {
 			return false
 		}},
 		{Name: "header-12MiB", Exp: expFail, act: func(c net.Conn, v string) bool {
-			w(c, "HTTP/1.1 200 OK\r\nX-Tok: "+strings.Repeat("h", 12<<20)+"\r\nContent-Length: 2\r\n\r\nok")
+			w(c, hugeHeader)
 			return false
 		}},
 		{Name: "five-thousand-headers", Status: 200, Exp: expStatus, act: func(c net.Conn, v string) bool {
-			hs := []string{"Content-Length: " + strconv.Itoa(len(goodBody(v))), "X-Tok: abcdef"}
-			for i := 0; i < 5000; i++ {
-				hs = append(hs, fmt.Sprintf("X-H-%d: v%d", i, i))
-			}
-			w(c, resp("200 OK", hs, goodBody(v)))
+			w(c, manyHeaders(v))
 			return true
 		}},
-		{Name: "stall-before-headers", Exp: expFail, act: func(c net.Conn, v string) bool { time.Sleep(3500 * time.Millisecond); return false }},
+		{Name: "stall-before-headers", Exp: expFail, act: func(c net.Conn, v string) bool { time.Sleep(2500 * time.Millisecond); return false }},
 		{Name: "stall-inside-body", Status: 200, Exp: expEither, act: func(c net.Conn, v string) bool {
 			w(c, resp("200 OK", []string{"Content-Length: 50", "X-Tok: abcdef"}, "first half "))
 			time.Sleep(400 * time.Millisecond)
@@ -332,6 +351,18 @@ type Case struct {
 	NoKeep    bool   `json:"disable_keep_alives"`
 }
 
+// headerTimeout: the client-side timer is the only wall-clock deadline in a case. It is
+// generous (30 s) so that machine load cannot flip a verdict, except for the one behaviour
+// whose point is the timeout itself; there the well-behaved followers are not judged.
+func headerTimeout(c Case) string {
+	if timingCase(c) {
+		return "300ms"
+	}
+	return "30s"
+}
+
+func timingCase(c Case) bool { return c.Behaviour == "stall-before-headers" }
+
 func key(c Case, what string) string {
 	k := "C19/" + c.Gun
 	if c.Variant != "" {
@@ -385,8 +416,8 @@ func httpCase(res *vkit.Result, p *peer, c Case) {
 	}
 	path := vkit.WriteMem([]byte(sb.String()))
 	defer vkit.RemoveMem(path)
-	gun := map[string]any{"type": c.Gun, "target": p.rt.Addr, "response-header-timeout": "2s",
-		"dial": map[string]any{"timeout": "2s"}, "disable-keep-alives": c.NoKeep}
+	gun := map[string]any{"type": c.Gun, "target": p.rt.Addr, "response-header-timeout": headerTimeout(c),
+		"dial": map[string]any{"timeout": "10s"}, "disable-keep-alives": c.NoKeep}
 	samples, rr, err := runPool(poolConf(map[string]any{"type": "uri", "file": path, "passes": 1}, gun, c.Instances), 60*time.Second)
 	if err != nil {
 		res.Inconclusive(true, "pool config rejected: %v", err)
@@ -408,7 +439,7 @@ func httpCase(res *vkit.Result, p *peer, c Case) {
 		switch s.Tags {
 		case "good":
 			good++
-			if s.Proto != 200 || s.Net != 0 {
+			if (s.Proto != 200 || s.Net != 0) && !timingCase(c) {
 				res.Violate(key(c, "next-request-affected"), fmt.Sprintf("a well-behaved request fired after the bad exchange failed: proto %d net %d (%s)", s.Proto, s.Net, s.Err), c)
 			}
 		case "bad":
@@ -493,7 +524,7 @@ scenarios:
 	sp := base + ".yaml"
 	_ = vkit.WriteMemAt(sp, []byte(yaml))
 	defer vkit.RemoveMem(sp)
-	gun := map[string]any{"type": c.Gun, "target": p.rt.Addr, "response-header-timeout": "2s", "dial": map[string]any{"timeout": "2s"}}
+	gun := map[string]any{"type": c.Gun, "target": p.rt.Addr, "response-header-timeout": headerTimeout(c), "dial": map[string]any{"timeout": "10s"}}
 	samples, rr, err := runPool(poolConf(map[string]any{"type": "http/scenario", "file": sp, "limit": shots}, gun, c.Instances), 60*time.Second)
 	if err != nil {
 		res.Inconclusive(true, "scenario pool rejected: %v", err)
@@ -518,6 +549,15 @@ scenarios:
 		if step == "scn.probe" && s.Net == 0 && s.Proto == 0 {
 			res.Violate(key(c, "failure-not-reported"), fmt.Sprintf("probe step sample carries neither a status nor a failure: %+v", s), c)
 		}
+	}
+	if timingCase(c) {
+		// only counts are judged: with a 300 ms client timer a loaded machine may time out good steps too
+		if cnt["scn.pre"] != shots {
+			res.Violate(key(c, "next-shot-affected"), fmt.Sprintf("%d shots, first step reported %d times", shots, cnt["scn.pre"]), c)
+		}
+		res.Count("scenario_samples", int64(len(samples)))
+		res.Eval(vkit.JSON(c), true)
+		return
 	}
 	if cnt["scn.pre"] != shots || okc["scn.pre"] != shots {
 		res.Violate(key(c, "next-shot-affected"), fmt.Sprintf("%d shots: the first step of every shot must run and succeed, got %d samples of it, %d ok (all steps: %v)", shots, cnt["scn.pre"], okc["scn.pre"], cnt), c)
